@@ -266,22 +266,35 @@ CATALOGUE = {
 }
 
 
+def context_key(c):
+    """Two configured contexts with the same window and region are one Context for
+    Config.contexts: their calls are run together, at the position of the first."""
+    w = c.get("window") or {}
+    return (w.get("starting"), w.get("ending"), json.dumps(c.get("region"), sort_keys=True))
+
+
 def expected_calls(cfg, table_sids):
     """The yields a stream must produce, in order: one per resolvable entry whose
-    stream id exists, grouped context by context (first appearance)."""
-    out = []
+    stream id exists, context by context (equal contexts merged at their first
+    appearance)."""
+    groups = OrderedDict()
     for ci, c in enumerate(cfg["contexts"]):
-        nested = nested_streams(c["entries"])
-        by_key = {(e["sid"], e["module"], e["test"]): e for e in c["entries"]}
-        for sid, mods in nested.items():
-            for module, tests in mods.items():
-                for test in tests:
-                    e = by_key[(sid, module, test)]
-                    if not resolvable(e):
-                        continue
-                    if sid not in table_sids:
-                        continue
-                    out.append({"ctx": ci, "entry": e})
+        groups.setdefault(context_key(c), []).append(ci)
+    out = []
+    for cis in groups.values():
+        for ci in cis:
+            c = cfg["contexts"][ci]
+            nested = nested_streams(c["entries"])
+            by_key = {(e["sid"], e["module"], e["test"]): e for e in c["entries"]}
+            for sid, mods in nested.items():
+                for module, tests in mods.items():
+                    for test in tests:
+                        e = by_key[(sid, module, test)]
+                        if not resolvable(e):
+                            continue
+                        if sid not in table_sids:
+                            continue
+                        out.append({"ctx": ci, "entry": e})
     return out
 
 
